@@ -188,7 +188,60 @@ func (ts *TermStore) And(a, b *Term) *Term {
 	if (a.op == OpNot && a.args[0] == b) || (b.op == OpNot && b.args[0] == a) {
 		return ts.False
 	}
+	// equalities of adjacent slices of the same two words (a 32-byte hash compared as
+	// four uint64 fields) fuse into one equality over the joined slice
+	if r := ts.fuseSliceEq(a, b); r != nil {
+		return r
+	}
+	if a.op == OpAnd {
+		if r := ts.fuseSliceEq(a.args[1], b); r != nil {
+			return ts.And(a.args[0], r)
+		}
+	}
 	return ts.mk(&Term{op: OpAnd, args: []*Term{a, b}})
+}
+
+// sliceEq decomposes x[hi:lo] == y[hi:lo] (either operand may also be a whole variable)
+func sliceEq(t *Term) (x, y *Term, hi, lo int, ok bool) {
+	if t.op != OpEq || t.args[0].W == 0 {
+		return
+	}
+	part := func(e *Term) (*Term, int, int) {
+		if e.op == OpExtract {
+			return e.args[0], e.hi, e.lo
+		}
+		return e, e.W - 1, 0
+	}
+	x, hi, lo = part(t.args[0])
+	y2, hi2, lo2 := part(t.args[1])
+	if hi != hi2 || lo != lo2 || x.W != y2.W || x == y2 {
+		return
+	}
+	return x, y2, hi, lo, true
+}
+
+func (ts *TermStore) fuseSliceEq(a, b *Term) *Term {
+	x1, y1, h1, l1, ok1 := sliceEq(a)
+	if !ok1 {
+		return nil
+	}
+	x2, y2, h2, l2, ok2 := sliceEq(b)
+	if !ok2 {
+		return nil
+	}
+	if x1 == y2 && y1 == x2 {
+		x2, y2 = y2, x2
+	}
+	if x1 != x2 || y1 != y2 {
+		return nil
+	}
+	switch {
+	case l1 == h2+1:
+		return ts.Eq(ts.Extract(x1, h1, l2), ts.Extract(y1, h1, l2))
+	case l2 == h1+1:
+		return ts.Eq(ts.Extract(x1, h2, l1), ts.Extract(y1, h2, l1))
+	}
+	return nil
 }
 func (ts *TermStore) Or(a, b *Term) *Term {
 	if a.IsTrue() || b.IsTrue() {
@@ -510,8 +563,33 @@ func (ts *TermStore) BvOr(a, b *Term) *Term {
 	if a == b {
 		return a
 	}
+	// (x << n) | zext(y) with y no wider than n bits is a concatenation (byte
+	// recombination as in binary.BigEndian.Uint64): keeps digests as extracts
+	// of one wide variable instead of or-trees over single bytes
+	if r := ts.orAsConcat(a, b); r != nil {
+		return r
+	}
+	if r := ts.orAsConcat(b, a); r != nil {
+		return r
+	}
 	return ts.mk(&Term{op: OpBvOr, W: a.W, args: []*Term{a, b}})
 }
+// orAsConcat: hi = [zext] concat(X, 0_n), lo = zext(Y) with Y.W <= n  ==>  [zext] concat(X, zext(Y, n))
+func (ts *TermStore) orAsConcat(hi, lo *Term) *Term {
+	w := hi.W
+	if hi.op == OpZExt {
+		hi = hi.args[0]
+	}
+	if hi.op != OpConcat || !hi.args[1].IsConst() || hi.args[1].c.Sign() != 0 {
+		return nil
+	}
+	n := hi.args[1].W
+	if lo.op != OpZExt || lo.args[0].W > n || lo.W != w {
+		return nil
+	}
+	return ts.ZExt(ts.Concat(hi.args[0], ts.ZExt(lo.args[0], n)), w)
+}
+
 func (ts *TermStore) BvXor(a, b *Term) *Term {
 	ts.binCheck(a, b, "BvXor")
 	if a.IsConst() && b.IsConst() {
@@ -700,6 +778,9 @@ func (ts *TermStore) Concat(a, b *Term) *Term {
 	}
 	if a.IsConst() && a.c.Sign() == 0 {
 		return ts.ZExt(b, a.W+b.W)
+	}
+	if a.op == OpZExt {
+		return ts.ZExt(ts.Concat(a.args[0], b), a.W+b.W)
 	}
 	return ts.mk(&Term{op: OpConcat, W: a.W + b.W, args: []*Term{a, b}})
 }
